@@ -413,20 +413,29 @@ def run_layer_api(lmon, base, idx, r, sh):
         f1 = {"build": r.random() < 0.5, "launch": r.random() < 0.5}
         f2 = {"build": r.random() < 0.5, "launch": r.random() < 0.5}
         md = rnd_plain_table(r)
-        req = lambda fl: dict(op="cached", name="L", mtype="generic", restored={"action": "keep", "cause": "c"}, invalid={"action": "delete", "cause": "i"}, **fl)
-        steps = [req(f1), {"op": "write_metadata", "name": "L", "metadata": tomlw.tagged(md)}]
-        second = r.choice(["cached", "uncached", "none"])
+        L = r.choice(["L", "ruby-3.2", "a.b.c", "it's", "with space", "é"])      # the file is <layers>/<name>.toml whatever the name looks like
+        req = lambda fl: dict(op="cached", name=L, mtype="generic", restored={"action": "keep", "cause": "c"}, invalid={"action": "delete", "cause": "i"}, **fl)
+        steps = [req(f1), {"op": "write_metadata", "name": L, "metadata": tomlw.tagged(md)}]
+        second = r.choice(["cached", "uncached", "none", "older-handle"])
         if second == "cached":
             steps.append(req(f2))
         elif second == "uncached":
-            steps.append(dict(op="uncached", name="L", **f2))
+            steps.append(dict(op="uncached", name=L, **f2))
+        elif second == "older-handle":
+            # the layer is declared a second time (other flags), then the metadata is written through the handle of the FIRST declaration:
+            # the file holds the flags of the latest declaration and the metadata just written
+            steps = [req(f1), req(f2), {"op": "write_metadata", "name": L, "metadata": tomlw.tagged(md), "stale": True}]
         for st in steps:
             rep = lmon.call(st)
             if "err" in rep:
                 sh.violation("layer-api:error", "layer request failed: %s" % rep["detail"][:200], {"kind": "layer-api", "steps": steps})
                 return
         sh.evaluations += 1
-        raw = open(os.path.join(root, "layers", "L.toml"), "rb").read()
+        raw = open(os.path.join(root, "layers", L + ".toml"), "rb").read()
+        others = sorted(x for x in os.listdir(os.path.join(root, "layers")) if x not in (L, L + ".toml"))
+        if others:
+            sh.violation("layer-api:stray-file", "requests for layer %r left other entries in the layers directory: %r" % (L, others), {"kind": "layer-api", "steps": steps})
+            return
         case = {"kind": "layer-api", "steps": steps}
         try:
             doc = tomllib.loads(raw.decode())
@@ -434,6 +443,8 @@ def run_layer_api(lmon, base, idx, r, sh):
             sh.violation("layer-api:invalid-toml", "<layer>.toml written by the layer API is not valid TOML: %s\n%s" % (e, raw[:300]), case)
             return
         want_t = dict(f2 if second != "none" else f1, cache=second != "uncached")
+        if second == "older-handle":
+            want_t = dict(f2, cache=True)
         want_md = {} if second == "uncached" else tomlw.to_py(md)
         only_keys(doc, ["types", "metadata"], "<layer>.toml")
         t = doc.get("types", {})
